@@ -100,7 +100,8 @@ def parseGenesis (ws : List String) : Option (M Ledger) := do
       pure (⟨addr, v⟩ : GenesisValidator)
     | _ => none
   let retired ← (kv ws "R").bind fun s => parseNats s ","
-  pure (genesis cfg p accounts pools vals retired)
+  let books ← kvList ws "O" fun | [c, xs] => do pure (← c.toNat?, ← parseNats xs "/") | _ => none
+  pure (genesis cfg p accounts pools vals retired books)
 
 def parseMsg (kind : String) (ws : List String) : Option Msg :=
   match kind with
